@@ -10,6 +10,6 @@ CONSTANTS
   MaxVars = 0
 SPECIFICATION TraceSpec
 CONSTRAINT HighWater
-INVARIANTS LimitsSound ParseAgrees PrintPreservesValue
+INVARIANTS LimitsSound ParseAgrees PrintPreservesValue DecisionConforms StatsConform
 POSTCONDITION TraceAccepted
 CHECK_DEADLOCK FALSE
